@@ -85,7 +85,7 @@ CLAIMS = {
                  "copy after every public rewrite of the matrix (must-pass-through); "
                  "all thresholding siblings use one relation and exclude missing "
                  "states as rows and columns; N stored next to a matrix is its "
-                 "size; the adaptive kernel links a state to its own neighbours. Also: library calls in kernels respect argument types (T6), block assemblies are sized by the series the plots were built from (T7), distance kernels keep intermediates at input precision (T8), the adjacency handed to Network.__init__ is a cleared copy also through helper methods and keeps the shape of the recurrence matrix (T10: N is shared by plot and network); a size measured on the freshly built joint matrix is not overwritten later in the method (T11); the missing-value mask is computed on the embedded states (T12)."),
+                 "size; the adaptive kernel links a state to its own neighbours. Also: library calls in kernels respect argument types (T6), block assemblies are sized by the series the plots were built from (T7), distance kernels keep intermediates at input precision (T8), the adjacency handed to Network.__init__ is a cleared copy also through helper methods and keeps the shape of the recurrence matrix (T10: N is shared by plot and network); a size measured on the freshly built joint matrix is not overwritten later in the method (T11); the missing-value mask is computed on the embedded states (T12) and applied by every method that rebuilds the matrix (T13)."),
         "note": "Does NOT decide distance kernels, quantiles, neighbourhood sizes or NaN semantics of values.",
         "technique": "kernel-boundary type inference, must-pass-through over effect trees, sibling agreement",
     },
@@ -118,7 +118,9 @@ CLAIMS = {
                  "affine pointer analysis: a transposed hand-over with swapped "
                  "extents stays in bounds but reads the wrong elements); a name "
                  "bound inside a loop to a list/array built before the loop is not "
-                 "changed in place (A6: per-iteration work objects are fresh)."),
+                 "changed in place (A6: per-iteration work objects are fresh); a local "
+                 "memo dict inside loops is keyed on every loop variable its value "
+                 "depends on (A7)."),
         "note": "Does NOT decide numerical equality with reference statistics.",
         "technique": "kernel-boundary type inference, option-flow and idiom-consistency rules over ast; affine access-polynomial vs shape layout check over the clang AST",
     },
